@@ -616,7 +616,22 @@ Definition script_oracle (script : list cmd) : list entry -> wid -> event -> pha
   fun lg _ _ _ => nth (length lg) script CNone.
 Definition capt_of (l : list wid) : wid -> bool := fun w => existsb (Z.eqb w) l.
 
-Definition model_fuel (script : list cmd) : nat := (64 + 8 * length script)%nat.
+(* nesting depth of a command: how much fuel its own structure needs beyond one unit *)
+Fixpoint cdepth (c : cmd) : nat :=
+  match c with
+  | CBatch _ l => S (fold_right (fun x m => Nat.max (cdepth x) m) O l)
+  | CFocus _ => 1
+  | _ => 0
+  end.
+
+(* fuel the rest of the script can consume from call number k on *)
+Definition tail_cost (script : list cmd) (k : nat) : nat :=
+  list_sum (map (fun x => S (cdepth x)) (skipn k script)).
+
+Definition input_depth (i : input) : nat := match i with PCmd c => cdepth c | _ => O end.
+
+(* enough for every finite script (proofs/RouteProofs.v: model_fuel_run, model_fuel_step) *)
+Definition model_fuel (script : list cmd) : nat := S (tail_cost script 0).
 
 Definition entry_call (e : entry) : call3 := (e_wid e, e_ev e, e_ph e).
 
@@ -627,7 +642,7 @@ Fixpoint d_replay (script : list cmd) (capt : wid -> bool) (s : st) (l : list (i
   match l with
   | [] => true
   | (i, (oc, oo, os)) :: l' =>
-      match step (script_oracle script) capt (model_fuel script) s i with
+      match step (script_oracle script) capt (model_fuel script + input_depth i) s i with
       | None => false
       | Some s' =>
           let d := skipn (length (log (co s))) (log (co s')) in
@@ -788,12 +803,13 @@ Definition c15_direct_violations (cases : list dcase) : list Z := bad_indices (f
 Definition c15_direct_strict_violations (cases : list dcase) : list Z := bad_indices (fun c => negb (d_case_holds true c)) cases.
 Definition c15_direct_all (cases : list dcase) : list Z := bad_indices (fun _ => true) cases.
 
-(* ---- app stream: capturers, root, script, inputs, the whole call log, the terminal commands *)
-Definition acase := (list wid * wid * list cmd * list input * list call3 * list cmd)%type.
+(* ---- app stream: capturers, root, script, inputs, the whole call log, the terminal commands,
+   whether App.Run returned before the last input was queued *)
+Definition acase := (list wid * wid * list cmd * list input * list call3 * list cmd * bool)%type.
 
 Definition a_case_ok (c : acase) : bool :=
   match c with
-  | (capts, rt, script, ins, oc, oo) =>
+  | (capts, rt, script, ins, oc, oo, _) =>
       match run (script_oracle script) (capt_of capts) (model_fuel script) (init_st rt) ins with
       | None => false
       | Some s => list_eqb call3_eqb (map entry_call (log (co s))) oc &&
@@ -803,16 +819,25 @@ Definition a_case_ok (c : acase) : bool :=
 
 Definition c15_app_mismatches (cases : list acase) : list Z := bad_indices (fun c => negb (a_case_ok c)) cases.
 
+(* the history ends with the terminal focus gone and the pointer not seen since *)
+Definition ends_unfocused (ins : list input) : bool :=
+  fold_left (fun acc i => match i with
+                          | ITermFocusOut => true
+                          | IMouse _ _ | ITermFocusIn => false
+                          | _ => acc
+                          end) ins false.
+
 (* the history-level clauses of the property on the observed log *)
 Definition a_case_holds (strict : bool) (c : acase) : bool :=
   match c with
-  | (capts, rt, script, ins, oc, oo) =>
+  | (capts, rt, script, ins, oc, oo, early) =>
       let lg := attach script 0 oc in
       let guard (b : bool) := negb strict && b in
       let termfocus := existsb (fun i => match i with ITermFocusIn => true | _ => false end) ins in
       let dup := existsb (fun i => match tree_of_input i with Some t => negb (nodup_z (ids t)) | None => false end) ins in
+      let closing := negb early && ends_unfocused ins in
       (match focus_chain rt (focus_log lg) with Some _ => true | None => false end || guard (focus_in_focusout lg)) &&
-      forallb (fun w => match hover_state false (hover_log w lg) with Some _ => true | None => false end
+      forallb (fun w => match hover_state false (hover_log w lg) with Some b => negb (closing && b) | None => false end
                         || guard (dup || (termfocus && (w =? rt)))) (widgets_of lg) &&
       same_bag oo (filter is_out (rets lg))
   end.
